@@ -1,9 +1,12 @@
 package main
 
 import (
+	"bytes"
 	"encoding/binary"
 	"encoding/json"
 	"fmt"
+	"io"
+	"io/ioutil"
 	"math"
 	"math/rand"
 	"os"
@@ -284,6 +287,24 @@ func init() {
 		pa := rtmp.NewProtocol(a)
 		peer := rtmp.NewProtocol(b) // only used to serialise the peer's responses onto A's input
 
+		// A BYSTANDER: a second connection of the same process that has sent requests with the very same ids and
+		// never gets an answer. Connections are independent: whatever happens on A, the bystander's outstanding
+		// requests stay exactly as they are (and A never sees them).
+		by := rtmp.NewProtocol(struct {
+			io.Reader
+			io.Writer
+		}{bytes.NewReader(nil), ioutil.Discard})
+		seenReq := map[int]bool{}
+		for _, t := range cs.Reqs {
+			if !seenReq[t] {
+				seenReq[t] = true
+				if err := by.WritePacket(sizedRequestID(t, ids.concrete(t), 0), 0); err != nil {
+					rp.Bug("bystander write failed: %v", err)
+				}
+			}
+		}
+		byBefore, _ := by.VerifPending()
+
 		w := &writerCtl{arrive: make(chan arrival, 16), release: make(chan error, 16), wcmd: make(chan rtmp.Packet, 16), wret: make(chan error, 16)}
 		tr := newTracker()
 		arrive, release, wcmd, wret := w.arrive, w.release, w.wcmd, w.wret
@@ -461,6 +482,9 @@ func init() {
 			default:
 				rp.Bug("unknown schedule label %q", label)
 			}
+		}
+		if byAfter, _ := by.VerifPending(); fmt.Sprint(byAfter) != fmt.Sprint(byBefore) {
+			return rp.Fail(i, "a second connection of the same process had requests %v outstanding; after the schedule on THIS connection it has %v (connections share their transaction table)", byBefore, byAfter)
 		}
 		// NoLoss: everything that reached the transport was answered, so nothing may still be remembered
 		// (except the id of a request whose write failed)
